@@ -12,14 +12,21 @@ from .gen import canon, dt_us, td_us
 # canonical values
 
 
-def cv(x):
+def cv(x, _stack=None):
+    """Canonical plain-JSON form of a query value. Cycle-safe: a program can build a cyclic value
+    (categorize(x, [[["", x], {...}]]) stores x inside its own events)."""
     from aw_core.models import Event
+    if isinstance(x, (dict, list, tuple)):
+        _stack = _stack or set()
+        if id(x) in _stack or len(_stack) > 60:
+            return ["cycle"]
+        _stack = _stack | {id(x)}
     if isinstance(x, Event):
-        return ["E", x.id, dt_us(x.timestamp), td_us(x.duration), cv(x.data)]
+        return ["E", x.id, dt_us(x.timestamp), td_us(x.duration), cv(x.data, _stack)]
     if isinstance(x, dict):
-        return ["d", sorted([str(k), cv(v)] for k, v in x.items())]
+        return ["d", sorted([str(k), cv(v, _stack)] for k, v in x.items())]
     if isinstance(x, (list, tuple)):
-        return ["l", [cv(v) for v in x]]
+        return ["l", [cv(v, _stack) for v in x]]
     if isinstance(x, bool):
         return ["b", x]
     if isinstance(x, int):
@@ -192,10 +199,16 @@ class Registry:
         reg = self
 
         def recorder(datastore, namespace, *args, **kwargs):
-            reg.trace.append([name, cv(list(args))])
+            try:   # the recorder must never raise into the code under test
+                reg.trace.append([name, cv(list(args))])
+            except Exception as ex:  # noqa: BLE001
+                reg.trace.append([name, ["unrecordable", type(ex).__name__]])
             result = fn(datastore, namespace, *args, **kwargs)
             if name in reg.keep_results_of:
-                reg.results.append((name, list(args), copy.deepcopy(result)))
+                try:
+                    reg.results.append((name, list(args), copy.deepcopy(result)))
+                except Exception:  # noqa: BLE001
+                    pass
             return result
 
         recorder.__wrapped__ = fn
